@@ -309,6 +309,9 @@ type c13ExamineOut struct {
 	Headers []c13HdrIn `json:"headers"`
 	Fb2     []string   `json:"fb2"`
 	Oracle  *c13Oracle `json:"oracle"`
+	// Fb3: checkBinaryMetadata on the parsed trailers (in the order of Headers), as the reference
+	// client applies it to the trailers of a gRPC-Web response
+	Fb3 []string `json:"fb3"`
 }
 
 func c13Examine(c *gen.Ctx, block string) c13ExamineOut {
@@ -330,6 +333,11 @@ func c13Examine(c *gen.Ctx, block string) c13ExamineOut {
 	}
 	out.Oracle = c13OracleFor(h)
 	out.Fb2 = c13Classes(c, rc.VerifC13CheckGRPCStatus(h))
+	var parsed []*conformancev1.Header
+	for _, k := range keys {
+		parsed = append(parsed, &conformancev1.Header{Name: k, Value: h[k]})
+	}
+	out.Fb3 = c13Classes(c, rc.VerifC13CheckBinaryMetadata("trailers", parsed))
 	if len(out.Fb1) == 0 && len(out.Fb2) == 0 {
 		c.E.Count("examine:clean")
 	} else {
